@@ -129,3 +129,8 @@ MUTANTS += [
  {"id": "branch-tail-slices-benign", "kind": "benign", "edits": [{"patch": "/verif/benign/h5-dewey-2/patch.diff"}]},
  {"id": "branch-tail-slice-on-the-wrong-branch", "kind": "break", "edits": [{"patch": "/verif/benign/h5-dewey-2/patch.diff"}, ("src/dewey.rs", "        Ordering::Less => {\n            if let Some(&r) = rhs.version[llen..]", "        Ordering::Greater => {\n            if let Some(&r) = rhs.version[llen..]"), ("src/dewey.rs", "        Ordering::Greater => {\n            if let Some(&l) = lhs.version[rlen..]", "        Ordering::Less => {\n            if let Some(&l) = lhs.version[rlen..]")], "expect": ["PANIC@dewey::dewey_cmp"]},
 ]
+MUTANTS += [
+ {"id": "paren-starts-ends-with-benign", "kind": "benign", "edits": [{"patch": "/verif/benign/h5-distinfo-2/patch.diff"}]},
+ {"id": "paren-starts-ends-with-same-byte", "kind": "break", "edits": [{"patch": "/verif/benign/h5-distinfo-2/patch.diff"}, ("src/distinfo.rs", 'if !(s.starts_with(b"(") && s.ends_with(b")")) {', 'if !(s.starts_with(b"|") && s.ends_with(b"|")) {')], "expect": ["PANIC@distinfo::Line::from_bytes"]},
+ {"id": "paren-starts-with-only", "kind": "break", "edits": [{"patch": "/verif/benign/h5-distinfo-2/patch.diff"}, ("src/distinfo.rs", 'if !(s.starts_with(b"(") && s.ends_with(b")")) {', 'if !s.starts_with(b"(") {')], "expect": ["PANIC@distinfo::Line::from_bytes"]},
+]
